@@ -50,6 +50,19 @@ def leaf_contracts(T: Types, reg: Registry):
 
     def thread_start(eng, st, recv, a, kwargs):
         info = st.ghost.get("$threads", {}).get(str(recv.term))
+        # attribution: a writer thread stores its entry under the listed ids - the entry must name exactly that id
+        if info and isinstance(info.get("target"), BoundMeth) and info["target"].name == "_add_histories" and isinstance(info.get("args"), TupleVal) \
+                and len(info["args"].items) == 2 and isinstance(info["args"].items[1], Val):
+            ids_v, hv = info["args"].items
+            hid = Hist.get(hv.term, "invocation_id")
+            if isinstance(ids_v, ListVal):
+                goal = z3.And([x.term == hid for x in ids_v.items]) if ids_v.items else z3.BoolVal(True)
+            elif isinstance(ids_v, Val) and isinstance(ids_v.ty, SeqT):
+                q = z3.Const(fresh_name("wid"), ID.sort())
+                goal = z3.ForAll([q], z3.Implies(z3.Select(ops.seq_elems(ids_v.term, ID.sort()), q), q == hid))
+            else:
+                goal = z3.BoolVal(False)
+            eng.oblige(st.fork(), goal, "C10:a-writer-stores-an-entry-only-under-the-invocation-id-that-the-entry-names", "ensures")
         st.events.append({"ev": "thread-start", "thread": recv.term, "info": info,
                           "registered": dict(st.heap)})
         return [(OK, st, NONE)]
@@ -113,9 +126,25 @@ def leaf_contracts(T: Types, reg: Registry):
         cases=[Case("appended", ensures=[
             ("one-entry-appended-per-listed-id-nothing-else-changes", lambda c: appended(c, c.arg("invocation_ids")))])],
         properties=[PID], note="the id list is iterated as a set (callers pass a single id)")
-    for c in (add_history, mem_add):
+    INVS = SeqT(InvP)
+
+    def registered_writers(c, elems):
+        x = z3.Const(fresh_name("rw"), InvP.sort())
+        cell = lambda i: z3.Select(c.f("invocation_threads"), i)
+        return z3.ForAll([x], z3.Implies(z3.Select(elems, x), z3.And(threads_t.opt.is_some(cell(InvP.get(x, "invocation_id"))),
+                                                                    z3.Length(threads_t.opt.val(cell(InvP.get(x, "invocation_id")))) > 0)))
+    add_histories = Contract(
+        key=f"{SB}:BaseStateBackend.add_histories", shape="BaseStateBackend",
+        params={"invocations": INVS, "status_record": T.Record, "runner_context": T.RunnerCtx}, frame=["invocation_threads"],
+        loops={0: LoopSpec(modifies=["invocation_threads"], inv=[
+            ("a-writer-is-registered-for-every-invocation-handled-so-far", lambda c: registered_writers(c, c.x("seen_elems"))
+             if c.has_extra("seen_elems") and c.x("seen_elems").sort() == SetT(InvP).sort() else z3.BoolVal(True))])},
+        cases=[Case("one-writer-per-invocation", ensures=[
+            ("a-writer-is-registered-for-every-listed-invocation", lambda c: registered_writers(c, ops.seq_elems(c.arg("invocations"), InvP.sort())))])],
+        properties=[PID], note="the per-writer attribution obligation is raised at every Thread.start() (see thread_start)")
+    for c in (add_history, mem_add, add_histories):
         reg.add(c)
-    return [add_history, mem_add]
+    return [add_history, mem_add, add_histories]
 
 
 def atomic_append(ctx: RunCtx):
@@ -215,4 +244,7 @@ def build(ctx: RunCtx) -> Prop:
         trusted_base=GLUE_TRUSTED + ["sqlite3 (history table: bounded stand-in only)"],
         not_decided="lateness and interleaving of the writer threads are not explored; SQLite history storage is only enumerated.",
         min_obligations=30,
+        # the record that goes into the history is the one the transition itself computed and stored (not a later re-read): leaf contracts of C01
+        parts=[("contracts.c01", ["pynenc.orchestrator.sqlite_orchestrator:SQLiteOrchestrator._atomic_status_transition",
+                                  "pynenc.orchestrator.mem_orchestrator:MemOrchestrator._atomic_status_transition"])],
     )
